@@ -1,6 +1,8 @@
 (* C10 - property theorems only.  A generator is any state machine
    (S, reseed, draw); the theorems hold for every one of them. *)
-From HV Require Import Prelude C10_Model C10_Check C10_Proofs.
+From HV Require Import Prelude Stats C10_Model C10_Check C10_Proofs.
+From Coq Require Import PrimFloat SpecFloat FloatOps QArith Qabs.
+Open Scope Z_scope.
 
 (* simgenotype with an integer seed (0 included): outputs and the generator state
    left behind are the same whatever state the process-global generator was in. *)
@@ -119,6 +121,139 @@ Print Assumptions C10_holds_phenotype_sound.
 
 Theorem C10_agree_genotype_meaning :
   forall c, fst (check_genotype c) = true ->
-  forall k, g_seed c = Some k -> r_start (g_a c) = g_ref c /\ r_start (g_b c) = g_ref c.
+  forall k, g_seed c = Some k ->
+    r_start (g_a c) = g_ref c /\ r_start (g_b c) = g_ref c
+    /\ r_trace (g_a c) = r_trace (g_b c) /\ r_end (g_a c) = r_end (g_b c).
 Proof. exact agree_genotype_meaning_l. Qed.
 Print Assumptions C10_agree_genotype_meaning.
+
+(* EVERY draw of a seeded run - not only the first - is made from a state that depends on
+   seed and inputs only, the same values are drawn, and the state left behind ([last] of
+   the trace) is the same. *)
+Theorem C10_trace_history_independent :
+  forall (S D Rq : Type) (reseed : Z -> S) (draw : Rq -> S -> D * S)
+         (I O : Type) (P : I -> prog D Rq O) (k : Z) (g g' : S) (i : I),
+  trace S D Rq draw (P i) (start_state S reseed false (Some k) g)
+  = trace S D Rq draw (P i) (start_state S reseed false (Some k) g')
+  /\ record S D Rq draw (P i) (start_state S reseed false (Some k) g)
+     = record S D Rq draw (P i) (start_state S reseed false (Some k) g').
+Proof. exact trace_history_independent_l. Qed.
+Print Assumptions C10_trace_history_independent.
+
+Theorem C10_trace_last :
+  forall (S D Rq : Type) (draw : Rq -> S -> D * S) (R : Type) (p : prog D Rq R) (s d : S),
+  last (trace S D Rq draw p s) d = snd (run S D Rq draw p s).
+Proof. exact trace_last. Qed.
+Print Assumptions C10_trace_last.
+
+(* Bridge to the C01-C03 models, which are functions of a RECORDED list of draws: running a
+   drawing program on a generator is replaying it on the draws recorded during that run; so
+   whenever such a model describes a stage (model i ds = replay (P i) ds for all ds), the
+   seeded command's output is that model applied to a draw list fixed by seed and inputs. *)
+Theorem C10_run_replay :
+  forall (S D Rq : Type) (draw : Rq -> S -> D * S) (R : Type) (p : prog D Rq R) (s : S),
+  replay D Rq p (record S D Rq draw p s) = Some (fst (run S D Rq draw p s)).
+Proof. exact run_replay_l. Qed.
+Print Assumptions C10_run_replay.
+
+Theorem C10_recorded_model_history_independent :
+  forall (S D Rq : Type) (reseed : Z -> S) (draw : Rq -> S -> D * S) (I O : Type)
+         (P : I -> prog D Rq O) (model : I -> list D -> option O),
+  (forall i ds, model i ds = replay D Rq (P i) ds) ->
+  forall (k : Z) (g g' : S) (i : I),
+    model i (record S D Rq draw (P i) (reseed k))
+    = Some (fst (simgenotype_run S D Rq reseed draw false P (Some k) g i))
+    /\ fst (simgenotype_run S D Rq reseed draw false P (Some k) g i)
+       = fst (simgenotype_run S D Rq reseed draw false P (Some k) g' i).
+Proof. exact recorded_model_history_independent_l. Qed.
+Print Assumptions C10_recorded_model_history_independent.
+
+(* ---- the replication loop: `for i in range(R): pt_sim.run(...)` on ONE simulator.
+   For every number of replications R and every simulator state the loop starts in (proof
+   by induction on R): the generator is threaded as [replications] says (consecutive draws,
+   C10_replications_thread_state) and the columns appended are pheno g applied to the
+   replicates' own draws, in order. *)
+Theorem C10_run_reps_columns :
+  forall (St D Rq G P : Type) (draw : Rq -> St -> D * St) (pheno : G -> D -> P)
+         (g : G) (q : Rq) (R : nat) (m : sim St P),
+  run_reps St D Rq G P draw pheno g q R m =
+  let '(ds, ss, sf) := replications St D Rq draw (repeat q R) (sim_rng _ _ m) in
+  mksim _ _ sf (sim_cols _ _ m ++ map (pheno g) ds).
+Proof. exact run_reps_cols_l. Qed.
+Print Assumptions C10_run_reps_columns.
+
+(* ... also when the calls on the one simulator have different inputs / requests *)
+Theorem C10_run_calls_columns :
+  forall (St D Rq G P : Type) (draw : Rq -> St -> D * St) (pheno : G -> D -> P)
+         (calls : list (G * Rq)) (m : sim St P),
+  run_calls St D Rq G P draw pheno calls m =
+  let '(ds, ss, sf) := replications St D Rq draw (map snd calls) (sim_rng _ _ m) in
+  mksim _ _ sf (sim_cols _ _ m ++ map (fun gd : G * D => pheno (fst gd) (snd gd)) (combine (map fst calls) ds)).
+Proof. exact run_calls_cols_l. Qed.
+Print Assumptions C10_run_calls_columns.
+
+Theorem C10_replicate_own_draw :
+  forall (St D Rq G P : Type) (draw : Rq -> St -> D * St) (pheno : G -> D -> P)
+         (g : G) (q : Rq) (R : nat) (s : St) (k : nat),
+  nth_error (sim_cols _ _ (run_reps St D Rq G P draw pheno g q R (mksim _ _ s []))) k
+  = option_map (pheno g) (nth_error (fst (fst (replications St D Rq draw (repeat q R) s))) k).
+Proof. exact replicate_own_draw_l. Qed.
+Print Assumptions C10_replicate_own_draw.
+
+(* Replicate k depends on the inputs and on the draws of replicate k ONLY, for every R:
+   two runs of the loop on ANY two generators (so: any other values drawn in all the other
+   replicates) that agree on the k-th draw agree on the k-th column. *)
+Theorem C10_replicate_depends_on_own_draw :
+  forall (St1 St2 D Rq G P : Type) (draw1 : Rq -> St1 -> D * St1) (draw2 : Rq -> St2 -> D * St2)
+         (pheno : G -> D -> P) (g : G) (q : Rq) (R : nat) (s1 : St1) (s2 : St2) (k : nat),
+  nth_error (fst (fst (replications St1 D Rq draw1 (repeat q R) s1))) k
+  = nth_error (fst (fst (replications St2 D Rq draw2 (repeat q R) s2))) k ->
+  nth_error (sim_cols _ _ (run_reps St1 D Rq G P draw1 pheno g q R (mksim _ _ s1 []))) k
+  = nth_error (sim_cols _ _ (run_reps St2 D Rq G P draw2 pheno g q R (mksim _ _ s2 []))) k.
+Proof. exact replicate_depends_on_own_draw_l. Qed.
+Print Assumptions C10_replicate_depends_on_own_draw.
+
+(* The regression this clause excludes (genetic component cached, noise added in place on
+   the cache): replicate 2 gets the same draw in two runs, its column differs. *)
+Example C10_cached_inplace_refuted :
+  c_cols _ _ _ (run_reps_cached (list Z) Z unit Z Z script_draw Z.add (fun g => g) tt 2 (mkcsim _ _ _ [1; 5] 10 [])) = [11; 16]
+  /\ c_cols _ _ _ (run_reps_cached (list Z) Z unit Z Z script_draw Z.add (fun g => g) tt 2 (mkcsim _ _ _ [2; 5] 10 [])) = [12; 17]
+  /\ sim_cols _ _ (run_reps (list Z) Z unit Z Z script_draw Z.add 10 tt 2 (mksim _ _ [1; 5] [])) = [11; 15]
+  /\ sim_cols _ _ (run_reps (list Z) Z unit Z Z script_draw Z.add 10 tt 2 (mksim _ _ [2; 5] [])) = [12; 15].
+Proof. exact cached_inplace_refuted_l. Qed.
+Print Assumptions C10_cached_inplace_refuted.
+
+(* "Not copies", for EVERY generator: if the generator does not return to a state within
+   the run and its draws tell those states apart, the threaded replicates are pairwise
+   different (whereas the re-seeding mutant yields copies for every generator,
+   C10_reseeded_mutant_copies). *)
+Theorem C10_threaded_replicates_distinct :
+  forall (S D Rq : Type) (draw : Rq -> S -> D * S) (q : Rq) (R : nat) (s : S),
+  let '(ds, ss, sf) := replications S D Rq draw (repeat q R) s in
+  NoDup ss -> (forall a b, In a ss -> In b ss -> fst (draw q a) = fst (draw q b) -> a = b) -> NoDup ds.
+Proof. exact threaded_replicates_distinct_l. Qed.
+Print Assumptions C10_threaded_replicates_distinct.
+
+Example C10_threaded_distinct_inhabited :
+  let '(ds, ss, sf) := replications Z Z unit lcg_draw (repeat tt 3) 0 in
+  NoDup ss /\ (forall a b, In a ss -> In b ss -> fst (lcg_draw tt a) = fst (lcg_draw tt b) -> a = b) /\ NoDup ds.
+Proof. exact threaded_distinct_inhabited_l. Qed.
+Print Assumptions C10_threaded_distinct_inhabited.
+
+(* soundness of the checker of the `replicates` relation: it is evaluated on the exact
+   rational values of the floats the implementation drew and wrote
+   (holds_replicates c = holds_qreps cc (map f2q0 g) (map to_q reps)) *)
+Theorem C10_holds_qreps_sound :
+  forall (cc : bool) (g : list Q) (reps : list qrep), holds_qreps cc g reps = true ->
+  (forallb q_noisy reps = true -> noise_pairwise_distinct reps)
+  /\ (cc = false -> forall r0 rest, reps = r0 :: rest -> forall r, In r rest -> same_component_P r0 r)
+  /\ (cc = true -> forall r, In r reps ->
+        length (q_col r) = length g /\ length (q_noise r) = length g /\ top_set_P (liab_rows g r)).
+Proof. exact holds_qreps_sound_l. Qed.
+Print Assumptions C10_holds_qreps_sound.
+
+Example C10_holds_qreps_example :
+  holds_qreps false [] [mkq true [1; 2] [11; 12]; mkq true [3; 5] [13; 15]]%Q = true
+  /\ holds_qreps false [] [mkq true [1; 2] [11; 12]; mkq true [3; 5] [14; 17]]%Q = false.
+Proof. exact holds_qreps_example_l. Qed.
+Print Assumptions C10_holds_qreps_example.
